@@ -32,7 +32,8 @@ RULE = ('(a) values: floats (sign, zero, tiny, huge, half-way, nan/inf) x places
         'non-ASCII) - stored in a ValueStore, written with to_config()/write(), read back and re-typed by PDFFiller; (b) real solved '
         'returns through `habutax solve --solution` and `habutax fill-pdfs`. Oracle: round trip (numbers/bools exact, enum by member, '
         'blank as blank, text equal after strip). Non-trivial = a value whose text form differs from repr() or text containing an INI '
-        'metacharacter/newline; distinct = (type, places, text form)')
+        'metacharacter/newline; distinct = (type, places, text form)'
+        ' Generated texts include non-NFKC Unicode (combining accents, ligatures, fractions, symbols).')
 ASSUMPTIONS = ['text values are those an input file or a prompt can deliver (parsed by configparser, then stripped)']
 
 ENUMS = [henum.filing_status, henum.filing_status_2021, henum.us_states, henum.taxpayer_or_spouse, henum.taxpayer_spouse_or_both]
